@@ -27,10 +27,11 @@ Keys == {"log_level", "output_format", "max_retries", "timeout", "greeting", "fe
 \*     sexagesimal (007, 1e3, yes, null, on, 010, 1:30): text keys keep the text;
 \*   max_retries 3 = "010", timeout 3 = "0100": decimal integers with a leading zero (10 and 100, not octal);
 \*   timeout 4 = "1:30": not a number, rejected
+\*   feature_flag 7 = "false", 8 = "1": values that compare equal to 0 / true in Python without being the same value
 \*   feature_flag 5 = "true", 6 = "0": a key that holds a boolean is given a number next (and the other way round)
 \*   timeout 5 = "1e22", 6 = "1e-7": floats whose shortest spelling has an exponent and no dot; greeting 8 holds a
 \*     character outside the Basic Multilingual Plane
-Vals(k) == CASE k = "greeting" -> 1..8 [] k = "feature_flag" -> 1..6 [] k = "max_retries" -> {1, 2, 3, 9}
+Vals(k) == CASE k = "greeting" -> 1..8 [] k = "feature_flag" -> 1..8 [] k = "max_retries" -> {1, 2, 3, 9}
              [] k = "timeout" -> {1, 2, 3, 4, 5, 6, 9} [] OTHER -> {1, 2, 9}
 Valid(k, v) == v # 9 /\ ~(k = "timeout" /\ v = 4)
 
